@@ -169,6 +169,33 @@ def weave(repo, units, extra_cfg='kani'):
 
 # ------------------------------------------------------------------ running Kani
 
+def kill_fat_solvers(pid, limit_kb):
+    """kill single cbmc processes of the group whose RSS exceeds limit_kb (that harness becomes undecided; others go on)"""
+    killed = []
+    try:
+        pgid = os.getpgid(pid)
+    except ProcessLookupError:
+        return killed
+    for d in os.listdir('/proc'):
+        if not d.isdigit():
+            continue
+        try:
+            if os.getpgid(int(d)) != pgid:
+                continue
+            with open(f'/proc/{d}/comm') as f:
+                comm = f.read().strip()
+            if not comm.startswith('cbmc'):
+                continue
+            with open(f'/proc/{d}/statm') as f:
+                rss = int(f.read().split()[1]) * 4
+            if rss > limit_kb:
+                os.kill(int(d), signal.SIGKILL)
+                killed.append((int(d), rss // 1024))
+        except Exception:
+            pass
+    return killed
+
+
 def descendants_rss_kb(pid):
     """sum RSS of all processes in the process group of pid"""
     tot = 0
@@ -207,9 +234,13 @@ def run_kani(repo, harnesses, jobs, logpath, jsonpath, wall_limit, extra=None):
         lf.flush()
         p = subprocess.Popen(cmd, cwd=repo, env=env, stdout=lf, stderr=subprocess.STDOUT, start_new_session=True)
         mem_limit_kb = int(os.environ.get('VERIF_MEM_GB', '44')) * 1024 * 1024
+        per_proc_kb = int(os.environ.get('VERIF_MEM_PER_HARNESS_GB', '10')) * 1024 * 1024
 
         def watch():
             while p.poll() is None:
+                for (k, mb) in kill_fat_solvers(p.pid, per_proc_kb):
+                    lf.write(f'\n[verif watchdog] killed cbmc pid {k}: RSS {mb} MB over the per-harness limit\n')
+                    lf.flush()
                 r = descendants_rss_kb(p.pid)
                 peak[0] = max(peak[0], r)
                 if r > mem_limit_kb:
